@@ -50,12 +50,12 @@ H1_GRAPH = [from_tlc.gen_h1_from_graph]
 
 PROPS: Dict[str, Dict[str, Any]] = {
     "C01": {"monitor": "C01", "generators": [gen_h1.gen_c01, gen_h2.gen_h2_basic, sampled(gen_h1.gen_c06, 400), C06_FIXED] + H1_GEN, "design": H1_DESIGN},
-    "C02": {"monitor": "C02", "generators": [gen_h1.gen_c02, gen_h2.gen_h2_basic, sampled(gen_h1.gen_c06, 400), C06_FIXED, gen_h2.gen_flow] + H1_GEN, "design": H1_DESIGN},
+    "C02": {"monitor": "C02", "generators": [gen_h1.gen_c02, gen_h2.gen_h2_basic, sampled(gen_h1.gen_c06, 400), C06_FIXED, gen_h2.gen_flow, gen_h2.gen_h2c_trailers] + H1_GEN, "design": H1_DESIGN},
     "C03": {"monitor": "C03", "generators": [gen_h1.gen_c03, gen_h2.gen_h2_faults, sampled(gen_h2.gen_release, 150), sampled(gen_ws.gen_c11, 120),
                                                from_tlc.gen_ws_from_graph] + H1_GEN + H1_GRAPH, "design": H1_DESIGN,
             "deviations": [_dev("DevDoubleLog", "AtMostOneAccess"), _dev("DevParked", "Released")]},
     "C05": {"parts": [
-        {"monitor": "C05", "generators": [gen_h1.gen_c05, gen_h2.gen_h2_faults, gen_h2.gen_refused_start] + H1_GEN, "design": H1_DESIGN},
+        {"monitor": "C05", "generators": [gen_h1.gen_c05, gen_h2.gen_h2_faults, gen_h2.gen_refused_start, gen_h2.gen_failed_upload] + H1_GEN, "design": H1_DESIGN},
         # a WSGI application is an application too: the adapter must hand its failure on unfinished
         {"monitor": "C05W", "generators": [gen_wsgi.gen_c05w], "runner": "wsgi", "workers": ["wsgi"], "selftest": "C05W"},
     ]},
@@ -80,7 +80,7 @@ def flat_c13(tier, rng):
             yield sub
 
 
-PROPS["C04"] = {"monitor": "C04", "generators": [gen_h2.gen_unusual, gen_h2.gen_priority, gen_h2.gen_h2_faults, gen_h1.gen_c06, gen_ws.gen_c10,
+PROPS["C04"] = {"monitor": "C04", "generators": [gen_h2.gen_unusual, gen_h2.gen_priority, gen_h2.gen_priority_idle, gen_h2.gen_h2_faults, gen_h1.gen_c06, gen_ws.gen_c10,
                                                  gen_ws.gen_c11, flat_c13, gen_proto.gen_h2c_odd_settings, gen_limits.gen_c18] + H1_GEN}
 H2_DESIGN = [
     {"module": "MC_H2Conn", "cfg": "MC_H2Conn_quick.cfg"},
@@ -98,7 +98,7 @@ PROPS["C08"] = {"monitor": "C08", "generators": [gen_h2.gen_release, gen_h2.gen_
                 "deviations": [_h2dev("DevLowWater", "Bounded", "MC_H2Conn_grow.cfg"), _h2dev("DevCloseNoRelease", "NoStuckSend"),
                                _h2dev("DevResetNoRelease", "NoStuckSend")]}
 # (action coverage of the design instance is measured where the property is about that design: C06, C09)
-PROPS["C09"] = {"monitor": "C09", "generators": [gen_h2.gen_flow, gen_h2.gen_release, gen_h2.gen_h2_basic, gen_h2.gen_unusual,
+PROPS["C09"] = {"monitor": "C09", "generators": [gen_h2.gen_flow, gen_h2.gen_release, gen_h2.gen_h2_basic, gen_h2.gen_unusual, gen_h2.gen_priority_idle,
                                                  from_tlc.gen_h2_from_spec, from_tlc.gen_h2_from_graph],
                 "design": [dict(H2_DESIGN[0], coverage="strict")] + H2_DESIGN[1:]}
 WS_DESIGN = [{"module": "MC_WSock", "cfg": "MC_WSock_quick.cfg", "coverage": "strict"}]
